@@ -401,6 +401,15 @@ func c07CLICase(a vh.Args, r *vh.Result, c *c07Case) error {
 }
 
 func c07CLIReplay(a vh.Args, r *vh.Result, c *c07Case) error {
+	if c.Op == "tar-fifo" {
+		for i := 0; i < 12; i++ {
+			cc := *c
+			if err := c07TarFifoCase(a, r, &cc); err != nil {
+				return err
+			}
+		}
+		return nil
+	}
 	for i := 0; i < 5; i++ {
 		cc := *c
 		if err := c07CLICase(a, r, &cc); err != nil {
@@ -485,6 +494,141 @@ func c07CLI(a vh.Args, r *vh.Result, rng *vh.Rand) error {
 						return err
 					}
 				}
+			}
+		}
+	}
+	return c07TarFifos(a, r, rng)
+}
+
+// c07TarFifoCase: `desync tar -i --input-format tar` reads its input from a FIFO fed by the harness. The harness
+// writes the stream up to offset K (inside the data of a file that is not the last entry), sends the signal while
+// the Tar goroutine is blocked reading, then writes the rest.  Tar notices the cancellation at the next entry and
+// stops; the chunker sees a clean end of its pipe.  Predicate: exit 0 => the index describes the COMPLETE archive
+// of the stream and every chunk is readable from the store.
+func c07TarFifoCase(a vh.Args, r *vh.Result, c *c07Case) error {
+	bin := os.Getenv("VH_DESYNC")
+	if bin == "" {
+		return nil
+	}
+	desync.Digest = desync.SHA512256{}
+	stream := vh.UnHex(c.BlobHex)
+	work := filepath.Join(a.Work, "c07fifo")
+	os.RemoveAll(work)
+	sdir := filepath.Join(work, "store")
+	if err := os.MkdirAll(sdir, 0755); err != nil {
+		return err
+	}
+	var ref bytes.Buffer
+	if err := desync.Tar(context.Background(), &ref, desync.NewTarReader(bytes.NewReader(stream), desync.TarReaderOptions{AddRoot: true})); err != nil {
+		return fmt.Errorf("reference tar: %v", err)
+	}
+	fifo := filepath.Join(work, "input.fifo")
+	if err := syscall.Mkfifo(fifo, 0644); err != nil {
+		return err
+	}
+	sig := syscall.SIGINT
+	if strings.HasPrefix(c.Variant, "sigterm") {
+		sig = syscall.SIGTERM
+	}
+	out := filepath.Join(work, "out.caidx")
+	ctx, cancel := context.WithTimeout(context.Background(), 60*time.Second)
+	defer cancel()
+	cmd := exec.CommandContext(ctx, bin, "tar", "-i", "-s", sdir, "-n", strconv.Itoa(c.N), "--input-format", "tar", "--tar-add-root",
+		"-m", "16:64:256", out, fifo)
+	var stderr bytes.Buffer
+	cmd.Stderr = &stderr
+	cmd.Env = append(os.Environ(), "HOME="+work)
+	w, err := os.OpenFile(fifo, os.O_RDWR, 0)
+	if err != nil {
+		return err
+	}
+	if err := cmd.Start(); err != nil {
+		w.Close()
+		return err
+	}
+	done := make(chan error, 1)
+	go func() { done <- cmd.Wait() }()
+	k := c.K
+	if k > len(stream) {
+		k = len(stream)
+	}
+	w.Write(stream[:k])
+	time.Sleep(60 * time.Millisecond) // the child has consumed the prefix and waits for more
+	signalled := false
+	if c.Variant != "nosignal" {
+		cmd.Process.Signal(sig)
+		signalled = true
+		time.Sleep(40 * time.Millisecond)
+	}
+	w.Write(stream[k:])
+	w.Close()
+	werr := <-done
+	rc := 0
+	if werr != nil {
+		rc = -1
+		if ee, ok := werr.(*exec.ExitError); ok {
+			rc = ee.ExitCode()
+		}
+	}
+	c.Fired, c.Got = signalled, "exit:"+strconv.Itoa(rc)
+	c.Detail = strings.TrimSpace(stderr.String())
+	if len(c.Detail) > 300 {
+		c.Detail = c.Detail[:300]
+	}
+	r.Count(fmt.Sprintf("cli|tar-fifo|%s|%d|%d", c.Variant, c.N, c.K), signalled)
+	r.Dist("cli:tar-fifo " + c.Variant)
+	r.Dist("cli-result:" + c.Got)
+	if ctx.Err() != nil {
+		r.Fail("predicate", "cli-tar/hang-after-signal", fmt.Sprintf("desync tar -i reading a FIFO did not exit within 60s after %v", sig), c)
+		return nil
+	}
+	if rc != 0 && !signalled {
+		r.Fail("predicate", "cli-tar/error-without-signal", fmt.Sprintf("desync tar -i exited %d without having been signalled: %s", rc, c.Detail), c)
+	}
+	if rc == 0 {
+		d := ""
+		f, err := os.Open(out)
+		if err != nil {
+			d = "no index written: " + err.Error()
+		} else {
+			idx, err := desync.IndexFromReader(f)
+			f.Close()
+			if err != nil {
+				d = "index unreadable: " + err.Error()
+			} else if d = bkIndexDescribes(idx, ref.Bytes()); d != "" {
+				d = "index: " + d
+			} else {
+				d = bkReadBack(sdir, idx, ref.Bytes())
+			}
+		}
+		c.Complete = d == ""
+		if d != "" {
+			r.Fail("predicate", "cli-tar/exit0-but-incomplete", fmt.Sprintf("desync tar -i (n=%d, %s while the input stream was at offset %d of %d) exited 0 but the result is incomplete: %s", c.N, c.Variant, k, len(stream), d), c)
+		}
+	}
+	return nil
+}
+
+func c07TarFifos(a vh.Args, r *vh.Result, rng *vh.Rand) error {
+	if os.Getenv("VH_DESYNC") == "" {
+		return nil
+	}
+	stream, bounds := c06MakeTar(rng, true)
+	reps := 5
+	if a.Tier == "thorough" {
+		reps = 30
+	}
+	base := &c07Case{Op: "tar-fifo", Variant: "nosignal", N: 2, K: bounds[2] + 700, BlobHex: vh.Hex(stream), Level: "cli"}
+	if err := c07TarFifoCase(a, r, base); err != nil {
+		return err
+	}
+	for rep := 0; rep < reps; rep++ {
+		for _, v := range []string{"sigint", "sigterm"} {
+			// pause inside the data of an entry that is followed by at least two more
+			e := 1 + rng.Intn(len(bounds)-4)
+			c := &c07Case{Op: "tar-fifo", Variant: v, N: []int{1, 4}[rep%2], K: bounds[e] + 512 + 1 + rng.Intn(400), BlobHex: vh.Hex(stream), Level: "cli"}
+			if err := c07TarFifoCase(a, r, c); err != nil {
+				return err
 			}
 		}
 	}
